@@ -543,7 +543,8 @@ func (in *c09Input) build(now time.Time) c09Objects {
 // c09Client is the API the plugin reads the NodeResourceTopology from (the environment, not the code under test).
 type c09Client struct {
 	ctrlclient.Client
-	nrt *topologyv1alpha1.NodeResourceTopology
+	nrt     *topologyv1alpha1.NodeResourceTopology
+	updates int
 }
 
 func (c *c09Client) Get(_ context.Context, key ctrlclient.ObjectKey, obj ctrlclient.Object, _ ...ctrlclient.GetOption) error {
@@ -552,6 +553,16 @@ func (c *c09Client) Get(_ context.Context, key ctrlclient.ObjectKey, obj ctrlcli
 		return apierrors.NewNotFound(schema.GroupResource{Group: "topology.node.k8s.io", Resource: "noderesourcetopologies"}, key.Name)
 	}
 	c.nrt.DeepCopyInto(out)
+	return nil
+}
+
+func (c *c09Client) Update(_ context.Context, obj ctrlclient.Object, _ ...ctrlclient.UpdateOption) error {
+	in, ok := obj.(*topologyv1alpha1.NodeResourceTopology)
+	if !ok || c.nrt == nil || in.Name != c.nrt.Name {
+		return apierrors.NewNotFound(schema.GroupResource{Group: "topology.node.k8s.io", Resource: "noderesourcetopologies"}, obj.GetName())
+	}
+	c.nrt = in.DeepCopy()
+	c.updates++
 	return nil
 }
 
@@ -581,8 +592,17 @@ func c09Amount(c *kit.Case, res int, q resource.Quantity, what string) *big.Rat 
 }
 
 func c09Run(c *kit.Case, in *c09Input, tag string) *c09Out {
-	o := in.build(c09Now)
-	client = &c09Client{nrt: o.nrt}
+	return c09RunAt(c, in, tag, c09Now, nil)
+}
+
+// c09RunAt evaluates the input at time now; with cl == nil the NRT reader is a fresh stub holding the
+// input's NRT object, otherwise the given (persistent) API stub is used.
+func c09RunAt(c *kit.Case, in *c09Input, tag string, now time.Time, cl *c09Client) *c09Out {
+	o := in.build(now)
+	if cl == nil {
+		cl = &c09Client{nrt: o.nrt}
+	}
+	client = cl
 	items, err := (&Plugin{}).Calculate(o.strategy, o.node, o.pods, o.metrics)
 	if err != nil {
 		c.Fail("C09/output/error", "%s: Calculate returned an error on a complete input: %v", tag, err)
@@ -1221,9 +1241,10 @@ func c09Compare(c *kit.Case, name, desc string, base, probe *c09Out) {
 // units
 
 func c09Setup(t *testing.T) {
-	oldClock, oldClient := Clock, client
+	oldClock, oldClient, oldCtx := Clock, client, nrtSyncContext
 	Clock = fakeclock.NewFakeClock(c09Now)
-	t.Cleanup(func() { Clock, client = oldClock, oldClient })
+	nrtSyncContext = framework.NewSyncContext()
+	t.Cleanup(func() { Clock, client, nrtSyncContext = oldClock, oldClient, oldCtx })
 }
 
 func TestVerifC09Calculate(t *testing.T) {
@@ -1719,6 +1740,235 @@ func TestVerifC09Prepare(t *testing.T) {
 			if c.K < 2 && !out.reset {
 				c.Sample(map[string]any{"calculated_batch_cpu": out.node[0].RatString(), "ratio_percent": ratioPct, "prepare_calls": calls,
 					"written_allocatable_cpu": fmt.Sprint(first.v[0][1]), "written_allocatable_memory": fmt.Sprint(first.v[1][1])})
+			}
+		})
+}
+
+// ---------------------------------------------------------------------------------------------
+// NRT histories: the zone amounts are PUBLISHED on the NodeResourceTopology object by Plugin.PreUpdate
+// (prepareForNodeResourceTopology -> resutil.UpdateNRTZoneListIfNeeded -> client.Update). The unit replays
+// what the controller does per reconcile (Reconcile: Calculate -> NodeResource -> updateNodeResource:
+// PreUpdate -> Prepare -> update) over a history of rounds against one persistent API stub, with the
+// package clock advanced between rounds: fresh rounds publish zone amounts, then the node metric stops
+// being refreshed (or the NodeMetric object disappears) and the clock passes the degrade time.
+// Oracle (statement: "stale node metrics withdraw the resource instead of freezing an old value;
+// NUMA-zone amounts obey the same bounds per zone"): after a degraded round every zone of the stored NRT
+// has no batch-cpu / batch-memory entry or one whose capacity, allocatable and available are zero -
+// exactly as the node-level amounts are withdrawn from node.status by Prepare in the same round.
+// After a fresh round a zone amount that is newly added to the NRT (no earlier entry, so the controller's
+// ResourceDiffThreshold hysteresis cannot apply) must not exceed the calculated zone amount x ratio;
+// entries that existed before are only counted when they stay above the calculated amount, because the
+// documented diff-threshold hysteresis keeps values that moved by less than the threshold.
+// Causal rules: rounds are sequential; the metric's update time never moves backwards; the NRT keeps its
+// cpu/memory zone entries for the whole history; a controller restart (30%) empties the in-memory sync
+// context but not the NRT object.
+
+func c09NRTBatch(nrt *topologyv1alpha1.NodeResourceTopology, zone int, res int) (present bool, vals [3]*big.Rat) {
+	name := string([2]corev1.ResourceName{extension.BatchCPU, extension.BatchMemory}[res])
+	for _, ri := range nrt.Zones[zone].Resources {
+		if ri.Name == name {
+			return true, [3]*big.Rat{big.NewRat(ri.Capacity.MilliValue(), 1000), big.NewRat(ri.Allocatable.MilliValue(), 1000), big.NewRat(ri.Available.MilliValue(), 1000)}
+		}
+	}
+	return false, vals
+}
+
+func TestVerifC09NRTHistory(t *testing.T) {
+	c09Setup(t)
+	kit.Run(t, kit.Config{Property: "C09", Unit: "nrt-history", Quick: 4000, Thorough: 200000,
+		Rule: "same input generator with 1/2/4 NUMA zones forced; histories of 2-4 reconcile rounds (Calculate -> PreUpdate -> Prepare on a node copy) against one persistent NRT stub and an advancing fake clock: fresh rounds (inputs perturbed between rounds), then rounds in which the metric is older than the degrade time or the NodeMetric object is gone, optionally a recovery round; 30% start from an NRT that already carries batch amounts of an earlier controller lifetime, 30% restart the controller (empty sync context) before a round, cpu-normalization ratio absent or 1.00-3.00; oracle after every round; distinct = (zones, round kinds, preexisting, restart, ratio>1, amounts on NRT before the degraded round); non-trivial = a degraded round that starts with non-zero batch amounts on the NRT"},
+		func(c *kit.Case) {
+			r := c.R
+			in := c09GenInput(r)
+			minimal := c.K == 0 // case 0 is the hand-written minimal history: idle node, two zones, fresh round then stale round
+			if minimal {
+				const gi = int64(1) << 30
+				in = &c09Input{Cap: c09Res{100000, 100 * gi}, Zones: []c09Res{{50000, 50 * gi}, {50000, 50 * gi}}, Thr: [2]int64{100, 100}, CapPct: [2]int64{-1, -1}, DegradeMin: 15}
+			}
+			if in.Zones == nil {
+				z := kit.Pick(r, []int{1, 2, 2, 4})
+				in.Zones = make([]c09Res, z)
+				for i := range in.Zones {
+					in.Zones[i] = c09Res{in.Cap[0] / int64(z), in.Cap[1] / int64(z)}
+				}
+			}
+			zn := len(in.Zones)
+			ratioPct := int64(-1)
+			if r.Pct(35) {
+				ratioPct = kit.Pick(r, []int64{100, 101, 120, 150, 200, 300})
+			}
+			// round kinds: f fresh, s stale (metric not refreshed), m NodeMetric object gone
+			kinds := kit.Pick(r, []string{"fs", "fs", "fm", "ffs", "fsf", "fss", "fsfs", "s", "m", "ffm"})
+			preexisting := r.Pct(30) || kinds == "s" || kinds == "m"
+			if minimal {
+				ratioPct, kinds, preexisting = -1, "fs", false
+			}
+			cl := &c09Client{nrt: in.build(c09Now).nrt}
+			if preexisting {
+				for z := range cl.nrt.Zones {
+					for res := 0; res < 2; res++ {
+						q := *resource.NewQuantity(c09Amt(r, in.Zones[z][res], 1, 900)+1, resource.DecimalSI)
+						cl.nrt.Zones[z].Resources = append(cl.nrt.Zones[z].Resources, topologyv1alpha1.ResourceInfo{
+							Name: string([2]corev1.ResourceName{extension.BatchCPU, extension.BatchMemory}[res]), Capacity: q, Allocatable: q, Available: q})
+					}
+					sort.Slice(cl.nrt.Zones[z].Resources, func(a, b int) bool { return cl.nrt.Zones[z].Resources[a].Name < cl.nrt.Zones[z].Resources[b].Name })
+				}
+			}
+			nrtSyncContext = framework.NewSyncContext()
+			fc := Clock.(*fakeclock.FakeClock)
+			defer fc.SetTime(c09Now)
+			now := c09Now
+			lastUpdate := now.Add(-time.Duration(r.Range(0, 50)) * time.Second)
+			c.Op("history kinds=%s zones=%d ratioPct=%d preexisting=%v input %+v", kinds, zn, ratioPct, preexisting, *in)
+			p := &Plugin{}
+			restarted := false
+			nontrivial := false
+			for round, k := range kinds {
+				// time passes between reconciles
+				if round > 0 {
+					now = now.Add(time.Duration(r.Range(1, 600)) * time.Second)
+				}
+				cur := in.clone()
+				switch k {
+				case 'f':
+					if round > 0 && !minimal { // the node's load moved and koordlet reported again
+						if pin, _, _, ok := c09Probe(r, in, r.Intn(7)); ok {
+							cur = pin
+						}
+						in = cur.clone()
+					}
+					lastUpdate = now.Add(-time.Duration(r.Range(0, 50)) * time.Second)
+					cur.MetricKind, cur.AgeNanos = 0, int64(now.Sub(lastUpdate))
+				case 's':
+					now = now.Add(time.Duration(in.DegradeMin)*time.Minute + time.Duration(r.Range(1, 7200))*time.Second)
+					cur.MetricKind, cur.AgeNanos = 0, int64(now.Sub(lastUpdate))
+				default:
+					cur.MetricKind = 2
+				}
+				if r.Pct(30) && !minimal {
+					nrtSyncContext = framework.NewSyncContext()
+					restarted = true
+				}
+				fc.SetTime(now)
+				var had bool // non-zero batch amounts on the NRT before this round
+				prevPresent := make([][2]bool, zn)
+				for z := 0; z < zn; z++ {
+					for res := 0; res < 2; res++ {
+						present, vals := c09NRTBatch(cl.nrt, z, res)
+						prevPresent[z][res] = present
+						if present && (vals[0].Sign() != 0 || vals[1].Sign() != 0 || vals[2].Sign() != 0) {
+							had = true
+						}
+					}
+				}
+				tag := fmt.Sprintf("round %d (t=+%s, node metric last updated %s ago, degrade after %dm)", round, now.Sub(c09Now), time.Duration(cur.AgeNanos), cur.DegradeMin)
+				if k == 'm' {
+					tag = fmt.Sprintf("round %d (t=+%s, the NodeMetric object is gone)", round, now.Sub(c09Now))
+				}
+				out := c09RunAt(c, cur, tag, now, cl)
+				degraded, _ := cur.stale()
+				if degraded && !out.reset {
+					c.Fail("C09/degrade/stale-metric-not-reset", "%s: numbers are calculated", tag)
+				}
+				if !degraded && out.reset {
+					c.Fail("C09/output/reset-on-fresh-metric", "%s: items are resets", tag)
+				}
+				c09CheckBounds(c, cur, out, tag)
+				nr := framework.NewNodeResource(out.items...)
+				if ratioPct >= 0 {
+					nr.Annotations[extension.AnnotationCPUNormalizationRatio] = c09Ratio(ratioPct)
+				}
+				upd := cl.updates
+				if err := p.PreUpdate(out.objs.strategy, out.objs.node, nr); err != nil {
+					c.Fail("C09/nrt/preupdate-error", "%s: PreUpdate failed: %v", tag, err)
+				}
+				nodeCopy := out.objs.node.DeepCopy()
+				for _, n := range []corev1.ResourceName{extension.BatchCPU, extension.BatchMemory} { // amounts of the earlier round
+					nodeCopy.Status.Capacity[n] = *resource.NewQuantity(1000, resource.DecimalSI)
+					nodeCopy.Status.Allocatable[n] = *resource.NewQuantity(1000, resource.DecimalSI)
+				}
+				if err := p.Prepare(out.objs.strategy, nodeCopy, nr); err != nil {
+					c.Fail("C09/prepare/error", "%s: Prepare failed: %v", tag, err)
+				}
+				desc := ""
+				for z := 0; z < zn; z++ {
+					for res := 0; res < 2; res++ {
+						if present, vals := c09NRTBatch(cl.nrt, z, res); present {
+							desc += fmt.Sprintf(" z%d.%s=%s/%s/%s", z, c09ResName[res], vals[0].RatString(), vals[1].RatString(), vals[2].RatString())
+						} else {
+							desc += fmt.Sprintf(" z%d.%s=absent", z, c09ResName[res])
+						}
+					}
+				}
+				c.Op("%s: NRT updates=%d ->%s", tag, cl.updates-upd, desc)
+				if degraded {
+					c.Count("nrt_rounds_degraded", 1)
+					if had {
+						c.Count("nrt_degraded_with_amounts_on_nrt", 1)
+						nontrivial = true
+						c.NonTrivial()
+					}
+					for _, n := range []corev1.ResourceName{extension.BatchCPU, extension.BatchMemory} {
+						if _, ok := nodeCopy.Status.Allocatable[n]; ok {
+							c.Fail("C09/prepare/reset-not-withdrawn", "%s: node allocatable still carries %s", tag, n)
+						}
+					}
+					for z := 0; z < zn; z++ {
+						for res := 0; res < 2; res++ {
+							present, vals := c09NRTBatch(cl.nrt, z, res)
+							c.Count("nrt_zone_withdrawal_checked", 1)
+							if !present {
+								continue
+							}
+							for f, v := range vals {
+								if v.Sign() != 0 {
+									c.Fail("C09/degrade/zone-amounts-frozen-on-nrt", "%s: the node-level batch amounts are withdrawn but zone node-%d of the NodeResourceTopology still publishes batch-%s %s = %s (preexisting=%v, restarted=%v, NRT updates in this round: %d)",
+										tag, z, c09ResName[res], [3]string{"capacity", "allocatable", "available"}[f], v.RatString(), preexisting, restarted, cl.updates-upd)
+								}
+							}
+						}
+					}
+					continue
+				}
+				c.Count("nrt_rounds_fresh", 1)
+				if out.zone == nil {
+					c.Count("nrt_fresh_round_without_zone_amounts", 1)
+					continue
+				}
+				for z := 0; z < zn; z++ {
+					for res := 0; res < 2; res++ {
+						present, vals := c09NRTBatch(cl.nrt, z, res)
+						if !present {
+							c.Count("converse_misses_nrt_zone_amount_absent", 1)
+							continue
+						}
+						c.Count("nrt_zone_amounts_published", 1)
+						upper := new(big.Rat).Set(out.zone[z][res])
+						if res == c09CPU && ratioPct > 100 {
+							upper.Mul(upper, big.NewRat(ratioPct, 100))
+						}
+						for f, v := range vals {
+							if v.Sign() < 0 {
+								c.Fail("C09/nrt/zone-amount-negative", "%s: zone node-%d batch-%s = %s", tag, z, c09ResName[res], v.RatString())
+							}
+							if v.Cmp(upper) > 0 {
+								if !prevPresent[z][res] {
+									c.Fail("C09/nrt/zone-amount-above-calculated", "%s: zone node-%d batch-%s %s newly written to the NRT = %s exceeds the calculated zone amount %s x ratio = %s",
+										tag, z, c09ResName[res], [3]string{"capacity", "allocatable", "available"}[f], v.RatString(), out.zone[z][res].RatString(), upper.RatString())
+								}
+								c.Count("nrt_zone_kept_above_calculated_hysteresis", 1)
+							}
+						}
+					}
+				}
+			}
+			c.Seen(zn, kinds, preexisting, restarted, ratioPct > 100, nontrivial)
+			if nontrivial {
+				c.NonTrivial()
+			}
+			if c.K < 2 {
+				ops := c.Ops()
+				c.Sample(ops[len(ops)-1])
 			}
 		})
 }
